@@ -210,6 +210,26 @@ fn outcome_class(ans: &str) -> String {
 fn check(prop: &PropDef, args: &Args) -> i32 {
     let t0 = Instant::now();
     run::install_quiet_panic_hook();
+    // hang watchdog: the property is violated by a call that does not come back
+    {
+        let limit = std::time::Duration::from_secs(std::env::var("CEL_HANG_LIMIT_S").ok().and_then(|v| v.parse().ok()).unwrap_or(if args.tier == Tier::Quick { 60 } else { 180 }));
+        let (pid, dir, seed, tier) = (prop.id.to_string(), args.replay_dir.clone(), args.seed, if args.tier == Tier::Quick { "quick" } else { "thorough" });
+        std::thread::spawn(move || loop {
+            std::thread::sleep(std::time::Duration::from_millis(500));
+            let late = run::overdue(limit);
+            if !late.is_empty() {
+                let _ = std::fs::create_dir_all(&dir);
+                let path = format!("{dir}/{pid}-{seed}-{tier}.json");
+                let cases: Vec<J> = late.iter().map(|l| json!({"case": l, "predicate_failure": format!("the implementation did not return within {} s (hang or runaway computation)", limit.as_secs()), "failing_input_found": true})).collect();
+                let doc = json!({"property": pid, "seed": seed, "what": "a call into the implementation did not terminate within the time limit", "correspondence": format!("celharness check {pid}"), "cases": cases});
+                let _ = std::fs::write(&path, serde_json::to_string_pretty(&doc).unwrap());
+                println!("VIOLATION property={pid} replay={path}");
+                use std::io::Write;
+                let _ = std::io::stdout().flush();
+                std::process::exit(1);
+            }
+        });
+    }
     let mut rng = prng::Rng::new(args.seed);
     let mut cases: Vec<Case> = vec![];
     if let Some(c) = &args.corpus {
